@@ -19,7 +19,8 @@ RULE = ("A sandbox S holds root/ (files, dirs, mbox, Maildir, HTML; with the ful
         "segment- or character-aligned, aimed at real outside objects) x 0-3 percent-encoding layers x virtual/ZIP "
         "suffix x protocol form x handler list x cwd, or raw bytes. Oracles: (a) the reply and the handler chosen "
         "are identical in two worlds that differ only outside the root - and the reply does not contain the absolute path of the "
-        "root's surroundings unless the request spelt it -, (b) the audit monitor sees no open / "
+        "root's surroundings unless the request spelt it; a third run says, through os.stat / os.lstat, that every path outside "
+        "the sandbox which the server asked about and did not find exists, and must give the same reply again -, (b) the audit monitor sees no open / "
         "listdir / exec outside realpath(root), (c) a selector that, decoded once as the protocol does, contains "
         "a climbing token and is not a URL: link is answered with the protocol's not-found reply. "
         "Four enumerated start-up cases launch a real server process in a working directory with the root given "
@@ -31,7 +32,7 @@ RULE = ("A sandbox S holds root/ (files, dirs, mbox, Maildir, HTML; with the ful
 ASSUMPTIONS = [
     "trees contain no symlink leaving the root (quantifier)",
     "CPython audit events stand for file opens / directory listings / process launches; stat-only probes raise no "
-    "event and are covered by the two-world comparison only",
+    "event and are covered by the two-world comparison and the simulated third world only",
     "interpreter-internal opens (stdlib under sys.prefix, /usr/lib, the repository and harness sources) are allow-listed",
     "the two worlds share one root directory; cache files the first run leaves are removed before the second",
 ]
